@@ -5,6 +5,7 @@ package dicescript
 func init() {
 	vHarnesses["VH_C18_assign"] = VH_C18_assign
 	vHarnesses["VH_C18_modify"] = VH_C18_modify
+	vHarnesses["VH_C18_long"] = VH_C18_long
 	vHarnesses["VH_C18_modify_float"] = VH_C18_modify_float
 }
 
@@ -93,8 +94,18 @@ func VH_C18_modify_float() {
 	vAssert(fv == am.val, "value-is-the-written-amount (sign-normalised)")
 }
 
-func vC18Run(forms []vStForm, maxEdits int) {
-	k := 1 + vChoice("edits", maxEdits)
+func vC18Run(forms []vStForm, maxEdits int) { vC18RunN(forms, 1, maxEdits, false) }
+
+// vC18RunN: lists of minEdits..maxEdits edits.  With rotate, only the first
+// spelling and the first separator are choices and the following edits take
+// the next spelling / separator in turn (long lists without the full product).
+func vC18RunN(forms []vStForm, minEdits, maxEdits int, rotate bool) {
+	k := minEdits + vChoice("edits", maxEdits-minEdits+1)
+	f0, s0 := 0, 0
+	if rotate {
+		f0 = vChoice("form", len(forms))
+		s0 = vChoice("sep", len(vC18Seps))
+	}
 	var src []byte
 	src = append(src, "^st"...)
 	type want struct {
@@ -103,8 +114,16 @@ func vC18Run(forms []vStForm, maxEdits int) {
 	}
 	var wants []want
 	for i := 0; i < k; i++ {
-		f := forms[vChoice("form", len(forms))]
-		nd := 1 + vChoice("digits", 2)
+		var f vStForm
+		nd := 1
+		if rotate {
+			f = forms[(f0+i)%len(forms)]
+		} else {
+			f = forms[vChoice("form", len(forms))]
+			if i == 0 || maxEdits <= 2 {
+				nd = 1 + vChoice("digits", 2)
+			}
+		}
 		src = append(src, f.pre...)
 		w := want{f: f}
 		if f.hasExtra {
@@ -119,7 +138,11 @@ func vC18Run(forms []vStForm, maxEdits int) {
 		w.val = dv
 		wants = append(wants, w)
 		if i+1 < k {
-			src = append(src, vC18Seps[vChoice("sep", len(vC18Seps))]...)
+			if rotate {
+				src = append(src, vC18Seps[(s0+i)%len(vC18Seps)]...)
+			} else {
+				src = append(src, vC18Seps[vChoice("sep", len(vC18Seps))]...)
+			}
 		}
 	}
 	vm := vNewVM()
@@ -156,12 +179,21 @@ func vC18Run(forms []vStForm, maxEdits int) {
 	}
 }
 
-//vh:prop=C18 tiers=quick,thorough overrides=formatFriendlyError unwind=400 unwind_ok=1 budget_s=2400 quick:P.maxEdits=2 thorough:P.maxEdits=3 bounds="lists of 1..maxEdits (2 quick, 3 thorough) attribute assignments, each in one of 11 spellings (bare, ':' '=' with and without spaces, ASCII name, quoted name with space and digit, namespaced names, '*' and '*k' multipliers, parenthesised value) joined by one of 4 separators, values 1-2 symbolic decimal digits: the callback log equals the written list"
+//vh:prop=C18 tiers=quick,thorough overrides=formatFriendlyError unwind=400 unwind_ok=1 budget_s=2400 quick:P.maxEdits=2 thorough:P.maxEdits=3 bounds="lists of 1..maxEdits (2 quick, 3 thorough) attribute assignments, each in one of 11 spellings (bare, ':' '=' with and without spaces, ASCII name, quoted name with space and digit, namespaced names, '*' and '*k' multipliers, parenthesised value) joined by one of 4 separators, values 1-2 symbolic decimal digits (with three edits only the first value may have two): the callback log equals the written list"
 func VH_C18_assign() {
 	vC18Run(vC18AssignForms, vParam("maxEdits", 2))
 }
 
-//vh:prop=C18 tiers=quick,thorough overrides=formatFriendlyError unwind=400 unwind_ok=1 budget_s=2400 quick:P.maxEdits=2 thorough:P.maxEdits=3 bounds="lists of 1..maxEdits attribute modifications in 7 spellings (+ += - -= with and without spaces, namespaced and quoted names), 4 separators, values 1-2 symbolic digits: one callback per edit, in order, name / operator verbatim, subtraction sign-normalised"
+//vh:prop=C18 tiers=quick,thorough overrides=formatFriendlyError unwind=400 unwind_ok=1 budget_s=2400 quick:P.maxEdits=2 thorough:P.maxEdits=3 bounds="lists of 1..maxEdits attribute modifications in 7 spellings (+ += - -= with and without spaces, namespaced and quoted names), 4 separators, values 1-2 symbolic digits (with three edits only the first value may have two): one callback per edit, in order, name / operator verbatim, subtraction sign-normalised"
 func VH_C18_modify() {
 	vC18Run(vC18ModifyForms, vParam("maxEdits", 2))
+}
+
+//vh:prop=C18 tiers=quick,thorough overrides=formatFriendlyError unwind=400 unwind_ok=1 budget_s=2400 quick:P.maxEdits=4 thorough:P.maxEdits=6 bounds="long lists: 3..maxEdits (4 quick, 6 thorough) edits, assignments and modifications; the first spelling and the first separator are choices (11 / 7 spellings, 4 separators), later edits take the following spellings and separators in turn; values one symbolic digit: the callback log equals the written list"
+func VH_C18_long() {
+	if vChoice("family", 2) == 0 {
+		vC18RunN(vC18AssignForms, 3, vParam("maxEdits", 4), true)
+	} else {
+		vC18RunN(vC18ModifyForms, 3, vParam("maxEdits", 4), true)
+	}
 }
